@@ -495,7 +495,11 @@ func GenRun(verifSeed uint64, run int, tier string, profiles []string) *RunSpec 
 			case "text":
 				st = genTextStep(wl, nf)
 			case "render":
-				st = genRenderStep(wl, l, nf)
+				if wl.Bool(0.15) {
+					st = Step{Op: "fontinfo", Font: wl.Intn(nf)}
+				} else {
+					st = genRenderStep(wl, l, nf)
+				}
 			default:
 				switch y := wl.Intn(10); {
 				case y < 4:
@@ -503,7 +507,11 @@ func GenRun(verifSeed uint64, run int, tier string, profiles []string) *RunSpec 
 				case y < 6:
 					st = genTextStep(wl, nf)
 				case y < 7:
-					st = genFontStep(wl, nf)
+					if wl.Bool(0.3) {
+						st = Step{Op: "fontinfo", Font: wl.Intn(nf)}
+					} else {
+						st = genFontStep(wl, nf)
+					}
 				default:
 					st = genRenderStep(wl, l, nf)
 				}
